@@ -37,6 +37,7 @@ CALLS = [
     (r"^fpm->apply\(\)$", "fpm.apply"), (r"^fpm->applyToAll\(trackme\)$", "fpm.track"),
     (r"^simulationstep\+\+$", "step++"), (r"^outstepnr\+\+$", "outnr++"),
     (r"^Display::printText\(status_string\(.*\)$", "print.status"),
+    (r'^vfps_verif_ip\("([\w:-]+)"\)$', "ip:\\1"),
 ]
 CONDS = [
     (r"^wkm!=nullptr$", "hasWake"),
@@ -87,8 +88,9 @@ class Ex:
 
     def match(self, table, t, what):
         for pat, name in table:
-            if re.match(pat, t):
-                return name
+            m = re.match(pat, t)
+            if m:
+                return m.expand(name) if "\\" in name else name
         raise Unsupported("unrecognised %s in main(): %s" % (what, t[:160]))
 
     def stmts(self, nodes):
@@ -116,7 +118,22 @@ class Ex:
         if k == "DeclStmt":
             return [("call", self.match(DECLS, self.text(n), "declaration"))]
         if k in ("CXXMemberCallExpr", "CallExpr", "UnaryOperator", "CXXOperatorCallExpr"):
-            return [("call", self.match(CALLS, self.text(n), "statement"))]
+            t = self.text(n)
+            if t == "INOVESA_VERIF_IP":
+                # macro expansion: the tag is the string literal argument
+                lits = []
+
+                def walk(x):
+                    if isinstance(x, dict):
+                        if x.get("kind") == "StringLiteral":
+                            lits.append(x.get("value", ""))
+                        for c in x.get("inner", []):
+                            walk(c)
+                walk(n)
+                if len(lits) != 1 or not re.match(r'^"[\w:-]+"$', lits[0]):
+                    raise Unsupported("interrupt-point marker without a plain tag")
+                return [("call", "ip:" + lits[0].strip('"'))]
+            return [("call", self.match(CALLS, t, "statement"))]
         raise Unsupported("statement kind %s in the simulation part of main(): %s" % (k, self.text(n)[:100]))
 
 
@@ -133,7 +150,13 @@ def lean_stmts(sts, ind=2):
 
 
 def generate():
-    docs = ast_of(SRC, "main")
+    import cxxast
+    saved = list(cxxast.CLANG_ARGS)
+    cxxast.CLANG_ARGS.append("-DINOVESA_VERIF=1")     # keep the interrupt-point markers as statements
+    try:
+        docs = ast_of(SRC, "main")
+    finally:
+        cxxast.CLANG_ARGS[:] = saved
     mains = [d for d in docs if d.get("kind") == "FunctionDecl" and d.get("name") == "main"
              and any(c.get("kind") == "CompoundStmt" for c in d.get("inner", []))]
     if len(mains) != 1:
@@ -160,6 +183,12 @@ def generate():
     if start is None:
         raise Unsupported('"Starting the simulation." message not found before the loop')
     initial = ex.stmts(body[start:li])
+    # interrupt-point markers passed before the modelled part starts
+    r0 = body[0].get("range", {}).get("begin", {})
+    r1 = body[start].get("range", {}).get("begin", {})
+    o0 = r0.get("offset", r0.get("expansionLoc", {}).get("offset"))
+    o1 = r1.get("offset", r1.get("expansionLoc", {}).get("offset"))
+    setup_markers = len(re.findall(rb"INOVESA_VERIF_IP\(", ex.src[o0:o1])) if o0 is not None and o1 is not None else 0
     loop_body = ex.stmt(body[li]["inner"][1])
     # final block: statements after the loop up to (excluding) the last status print
     end = None
@@ -193,6 +222,8 @@ def generate():
     out.append("def loopBody : List MStmt := [\n%s\n]\n" % lean_stmts(loop_body))
     out.append("/-- after the loop: the final record -/")
     out.append("def finalBlock : List MStmt := [\n%s\n]\n" % lean_stmts(final))
+    out.append("/-- interrupt-point markers of the set-up part, passed before `initialBlock` starts -/")
+    out.append("def setupMarkers : Nat := %d\n" % setup_markers)
     out.append("/-- after the final record main prints `Aborted.` iff the abort flag is set, else `Finished.`,\n"
                "    and returns EXIT_SUCCESS -/")
     out.append("def endsWithAbortedOrFinished : Bool := %s\n" % ("true" if aborted else "false"))
